@@ -38,18 +38,61 @@ pub fn connection() -> Connection<Duplex> {
     Connection::connect(Duplex::new(b"OK MPD 0.23.5\n")).expect("greeting accepted")
 }
 
+/// What a connection has sent before the command under test (ambient dimension `send_history`):
+/// (the commands, the bytes they are on the wire - a literal, not computed by the code under test).
+fn prelude() -> (Vec<(Option<Command>, Option<CommandList>)>, Vec<u8>) {
+    let long_arg = "x".repeat(300);
+    let long = || Command::new("add").argument(long_arg.as_str());
+    let long_bytes = format!("add {long_arg}\n").into_bytes();
+    let list = || CommandList::new(Command::new("status")).command(Command::new("stats"));
+    let list_bytes = b"command_list_ok_begin\nstatus\nstats\ncommand_list_end\n".to_vec();
+    match crate::core::send_history() {
+        1 => (vec![(Some(long()), None)], long_bytes),
+        2 => (vec![(None, Some(list()))], list_bytes),
+        3 => (vec![(Some(long()), None), (None, Some(list())), (Some(Command::new("ping")), None)], [long_bytes, list_bytes, b"ping\n".to_vec()].concat()),
+        _ => (Vec::new(), Vec::new()),
+    }
+}
+
+/// Removes the prelude's bytes from the front of `output`; if they are not there, the whole output
+/// is returned (and the caller's comparison fails, showing them).
+fn strip_prelude(output: Vec<u8>, prelude_bytes: &[u8]) -> Vec<u8> {
+    match output.strip_prefix(prelude_bytes) {
+        Some(rest) => rest.to_vec(),
+        None => output,
+    }
+}
+
 /// Bytes `Connection::send` writes for `cmd`.
 pub fn sent_bytes(cmd: Command) -> Vec<u8> {
     let mut c = connection();
+    let (before, bytes) = prelude();
+    for (cmd, list) in before {
+        if let Some(x) = cmd {
+            c.send(x).expect("write to Vec cannot fail");
+        }
+        if let Some(l) = list {
+            c.send_list(l).expect("write to Vec cannot fail");
+        }
+    }
     c.send(cmd).expect("write to Vec cannot fail");
-    c.into_inner().output
+    strip_prelude(c.into_inner().output, &bytes)
 }
 
 /// Bytes `Connection::send_list` writes for `list`.
 pub fn sent_list_bytes(list: CommandList) -> Vec<u8> {
     let mut c = connection();
+    let (before, bytes) = prelude();
+    for (cmd, l) in before {
+        if let Some(x) = cmd {
+            c.send(x).expect("write to Vec cannot fail");
+        }
+        if let Some(l) = l {
+            c.send_list(l).expect("write to Vec cannot fail");
+        }
+    }
     c.send_list(list).expect("write to Vec cannot fail");
-    c.into_inner().output
+    strip_prelude(c.into_inner().output, &bytes)
 }
 
 /// The character classes that matter to either side (C06 quantifier).
@@ -171,15 +214,30 @@ fn async_connection(max_write: usize) -> mpd_protocol::AsyncConnection<AsyncSink
 /// Bytes `AsyncConnection::send` writes for `cmd` over a transport taking `max_write` bytes per write.
 pub fn async_sent_bytes(cmd: Command, max_write: usize) -> Vec<u8> {
     let mut c = async_connection(max_write);
+    let bytes = async_prelude(&mut c);
     crate::seg::block_on(c.send(cmd)).expect("write to sink cannot fail");
-    c.into_inner().output
+    strip_prelude(c.into_inner().output, &bytes)
+}
+
+fn async_prelude(c: &mut mpd_protocol::AsyncConnection<AsyncSink>) -> Vec<u8> {
+    let (before, bytes) = prelude();
+    for (cmd, l) in before {
+        if let Some(x) = cmd {
+            crate::seg::block_on(c.send(x)).expect("write to sink cannot fail");
+        }
+        if let Some(l) = l {
+            crate::seg::block_on(c.send_list(l)).expect("write to sink cannot fail");
+        }
+    }
+    bytes
 }
 
 /// Bytes `AsyncConnection::send_list` writes for `list`.
 pub fn async_sent_list_bytes(list: CommandList, max_write: usize) -> Vec<u8> {
     let mut c = async_connection(max_write);
+    let bytes = async_prelude(&mut c);
     crate::seg::block_on(c.send_list(list)).expect("write to sink cannot fail");
-    c.into_inner().output
+    strip_prelude(c.into_inner().output, &bytes)
 }
 
 /// Both flavours must put the same bytes on the wire, whatever the transport accepts per write.
